@@ -29,9 +29,9 @@ CLAIMS = {
          "(API preconditions) are listed under not_covered.",
          "5 C19", "weakest-precondition VCs over go/ssa + SMT; data-structure invariant with ghost witness field"),
  "C20": ("IsValidType is proved to accept exactly the 17 documented names; IsEqualSoft is proved equal to the documented relation softEq "
-         "(written from the documentation, not from the table) for all pairs of defined types, using the real table as built by the package "
+         "(written from the documentation, not from the table) for all pairs of defined types except one recorded known finding (IsEqualSoft(null, array) is true: a stray table entry that the table-derived test pins), using the real table as built by the package "
          "initialiser (executed symbolically; the table is checked never to be written elsewhere), with lemmas: softEq symmetric, reflexive on "
-         "defined types, undefined relates nothing, IsEqualSoft symmetric; the token-type tables of schema types and JSON types are proved to "
+         "defined types, undefined relates nothing, IsEqualSoft symmetric (outside that pair); the token-type tables of schema types and JSON types are proved to "
          "agree (lemma over the two contracts), NewJsonType inverts Type.String on the seven type names, IsScalar/IsOneOf exact; GuessSchemaType "
          "tries its predicates in a fixed order (no map iteration), classifies strings, booleans, null, { and [ exactly, never panics, and "
          "'integer' implies a grammatical number. Not decided: agreement of the integer/float split with the scanner's classifier (needs the "
